@@ -8,6 +8,10 @@ Sub-checks
   coll  : html-ascii-case-insensitive collation as 3rd argument or as the parser's default collation (two-argument
           forms) on strings dense in ASCII and non-ASCII cased letters: compare and the five substring-matching functions
           against the model, their mutual agreement and the partition law
+  doc   : the focus on nodes of small ElementTree / lxml documents: zero-argument (context item) forms of
+          normalize-space / string-length / string on element, text and attribute nodes (alone, as steps, in predicates);
+          XPath 1.0 and compatibility-mode calls whose first argument is a node-set of >= 2 nodes (first node rule)
+          and whose later arguments depend on the focus (@id, @key, name()); libxml2 differential for 1.0
   reuse : one parsed expression (literal / variable argument mixes) evaluated for 3-6 different argument tuples in a
           row, inside `for` over a sequence, and over several items of a document; every evaluation is judged
 """
@@ -70,6 +74,10 @@ FLOORS = {
     'reuse:3+distinct-tuples': (0.6, 'reuse:case'),
     'reuse:wrap:for': (0.12, 'reuse:case'),
     'reuse:wrap:items': (0.15, 'reuse:case'),
+    'doc:ctx': (0.35, 'doc:case'),
+    'doc:ns': (0.35, 'doc:case'),
+    'doc:nonxml-ws': (0.4, 'doc:case'),
+    'doc:backend:lxml': (0.3, 'doc:case'),
     'coll:non-ascii-case': (0.6, 'coll:case'),
     'coll:case-variant-needle': (0.12, 'coll:case'),
     'coll:html-default': (0.2, 'coll:case'),
@@ -368,6 +376,8 @@ def expand(check: str, pool) -> list:
         return [_mk_reuse(mx, pool) for _ in range(REUSE_BATCH)]
     if check == 'coll':
         return [_mk_coll(mx) for _ in range(COLL_BATCH)]
+    if check == 'doc':
+        return [_mk_doc(mx, pool) for _ in range(DOC_BATCH)]
     return [_mk_law(mx, pool) for _ in range(BATCH)]
 
 
@@ -1429,10 +1439,252 @@ def judge_coll(case, rec=None):
 
 
 # --------------------------------------------------------------------------
+# doc: the functions with the focus on nodes of small documents (ElementTree and lxml trees)
+#   ctx : zero-argument (context item) forms of normalize-space / string-length / string on element, text and
+#         attribute nodes, alone, as path steps and in predicates
+#   ns  : XPath 1.0 / compatibility mode calls whose earlier argument is a node-set of >= 2 nodes (first node counts)
+#         and whose later arguments depend on the focus (@id, @key, name())
+# --------------------------------------------------------------------------
+DOC_BATCH = 6
+_CTX_FNS = ['normalize-space', 'normalize-space', 'string-length', 'string']
+_CTX_KINDS = ['item-elem', 'item-elem', 'step-text', 'step-attr', 'pred-elem', 'pred-text', 'pred-attr']
+_NS_EXPRS = ["concat(a, '-', @id)", 'contains(a, @key)', 'substring-before(a, @sep)', 'substring-after(a, @sep)',
+             'translate(a, @from, @to)', 'starts-with(a, name())', 'concat(substring-before(a, @sep), @sep, substring-after(a, @sep))',
+             'count(//p[contains(a, @key)])', 'concat(@id, a, @key)', 'string-length(concat(a, @sep))']
+
+
+def _nonempty(mx, pool):
+    for _ in range(4):
+        z = _mk_str(mx, pool)
+        if z:
+            return z
+    return mx.pick(['a\xa0b', ' x ', '\u3000', 'q'])
+
+
+def _mk_doc(mx: _Mix, pool) -> dict:
+    backend = mx.pick(['et', 'lxml'])
+    if mx.below(2):
+        bs = []
+        for _ in range(1 + mx.below(3)):
+            bs.append({'k': _mk_str(mx, pool), 'text': _nonempty(mx, pool),
+                       'inner': _nonempty(mx, pool) if mx.below(2) else None, 'tail': _nonempty(mx, pool) if mx.below(2) else None})
+        return {'fam': 'ctx', 'ver': mx.pick(['1.0', '1.0', '2.0', '3.0', '3.1', '2.0c']), 'backend': backend, 'b': bs,
+                'fn': mx.pick(_CTX_FNS), 'kind': mx.pick(_CTX_KINDS)}
+    ps = []
+    for k in range(1 + mx.below(3)):
+        a = [_nonempty(mx, pool) for _ in range(2 + mx.below(2))]
+        src = a[0] if mx.below(3) else a[1]            # keys taken from the 2nd node must NOT be found in the 1st by accident only
+        i = mx.below(len(src))
+        part = src[i:i + 1 + mx.below(2)]
+        chars = list(a[0]) + ['a', '-']
+        frm = ''.join(mx.pick(chars) for _ in range(1 + mx.below(3)))
+        ps.append({'a': a, 'attrs': {'id': 'I%d' % k + mx.pick(['', 'p', '\xa0']), 'key': part if mx.below(5) else _mk_short(mx, pool),
+                                     'sep': part if mx.below(2) else src[mx.below(len(src))], 'from': frm,
+                                     'to': _mk_short(mx, pool) if mx.below(2) else frm[::-1].upper()}})
+    return {'fam': 'ns', 'ver': mx.pick(['1.0', '1.0', '2.0c']), 'backend': backend, 'p': ps, 'expr': mx.pick(_NS_EXPRS)}
+
+
+def _build_doc(case, backend):
+    """(root, focus elements) built by construction (no parsing) on xml.etree or lxml"""
+    if backend == 'lxml':
+        from lxml import etree as M
+    else:
+        import xml.etree.ElementTree as M
+    root = M.Element('r')
+    focus = []
+    if case['fam'] == 'ctx':
+        for spec in case['b']:
+            b = M.SubElement(root, 'b')
+            b.set('k', spec['k'])
+            b.text = spec['text']
+            if spec['inner'] is not None or spec['tail'] is not None:
+                c = M.SubElement(b, 'c')
+                c.text = spec['inner']
+                c.tail = spec['tail']
+            focus.append(b)
+    else:
+        for spec in case['p']:
+            pe = M.SubElement(root, 'p')
+            for k, v in spec['attrs'].items():
+                pe.set(k, v)
+            for t in spec['a']:
+                M.SubElement(pe, 'a').text = t
+            focus.append(pe)
+    return root, focus
+
+
+def _doc_parser(ver):
+    if ver == '2.0c':
+        p = _PARSER.get(('2.0c', 'cp'))
+        if p is None:
+            from elementpath import XPath2Parser
+            p = _PARSER[('2.0c', 'cp')] = XPath2Parser(compatibility_mode=True, default_collation=CP_URI)
+        return p
+    return _parser(ver)
+
+
+_DOC_TOKENS: dict = {}
+
+
+def _doc_eval(ver, expr, root, item=None):
+    from elementpath import XPathContext, ElementPathError
+    try:
+        tk = _DOC_TOKENS.get((ver, expr))
+        if tk is None:
+            tk = _DOC_TOKENS[(ver, expr)] = _doc_parser(ver).parse(expr)       # one parse, many documents / foci
+        ctx = XPathContext(root, item=item) if item is not None else XPathContext(root)
+        return ('ok', tk.get_results(ctx))
+    except ElementPathError as e:
+        return ('error', (e.code or '').split(':')[-1], str(e))
+
+
+def _ctx_ref(fn, z):
+    return R.normalize_space(z) if fn == 'normalize-space' else R.string_length(z) if fn == 'string-length' else z
+
+
+def _same(obs, want):
+    if isinstance(want, bool):
+        return obs is want
+    if isinstance(want, (int, float)):
+        return _same_number(obs, want)
+    return isinstance(obs, str) and obs == want
+
+
+def judge_doc_case(case, rec: Recorder | None = None) -> list[Disc]:
+    discs: list[Disc] = []
+    fam, ver, backend = case['fam'], case['ver'], case['backend']
+    vg = 'v1' if ver == '1.0' else 'compat' if ver == '2.0c' else 'v2+'
+    root, focus = _build_doc(case, backend)
+    lroot, lfocus = (root, focus) if backend == 'lxml' else _build_doc(case, 'lxml')
+    classes = ['doc:case', 'doc:' + fam, 'doc:backend:' + backend, 'doc:ver:' + ver]
+    flags = set()
+    nontrivial = True
+
+    def lx(expr, node):
+        from lxml import etree
+        f = _LX.get(expr)
+        if f is None:
+            f = _LX[expr] = etree.XPath(expr)
+        r = f(node)
+        return str(r) if isinstance(r, str) else r
+
+    def verdict(expr, res, want, tag, detail, lxml_want=None):
+        base = f'C09/doc/{fam}/{tag}/{vg}'
+        if res[0] == 'error':
+            discs.append(Disc(f'{base}/error/{res[1]}', want, res[2][:150], detail))
+            return
+        obs = res[1]
+        ok = (isinstance(obs, list) and len(obs) == len(want) and all(_same(o, w) for o, w in zip(obs, want))) \
+            if isinstance(want, list) else _same(obs, want)
+        if not ok:
+            discs.append(Disc(f'{base}/value', want, obs, detail))
+        if lxml_want is not None and ver == '1.0':
+            if _same(lxml_want, want) or (isinstance(want, (int, float)) and lxml_want == want):
+                if not _same(obs, lxml_want) and ok:
+                    discs.append(Disc(f'{base}/libxml2', lxml_want, obs, detail))
+            elif rec is not None:
+                rec.cls('doc:oracles-disagree')
+
+    try:
+        if fam == 'ctx':
+            fn, kind = case['fn'], case['kind']
+            if kind.startswith('step') and ver in ('1.0',):
+                kind = 'pred' + kind[4:]                 # no function steps in XPath 1.0
+            classes.append('doc:ctx:' + kind)
+            svals = [(b['text'] or '') + (b['inner'] or '') + (b['tail'] or '') for b in case['b']]
+            texts = [[t for t in (b['text'], b['tail']) if t] for b in case['b']]
+            for z in svals + [b['k'] for b in case['b']]:
+                flags |= _str_flags(z)
+            if kind == 'item-elem':
+                for k, (node, z) in enumerate(zip(focus, svals)):
+                    expr = fn + '()'
+                    verdict(expr, _doc_eval(ver, expr, root, node), _ctx_ref(fn, z), f'{fn}/item-elem',
+                            f'{expr} focus=b[{k + 1}] string-value={z!r} backend={backend}', lx(expr, lfocus[k]))
+            elif kind in ('step-text', 'step-attr'):
+                step = 'text()' if kind == 'step-text' else '@k'
+                expr = f'//b/{step}/{fn}()'
+                want = [_ctx_ref(fn, t) for ts in texts for t in ts] if kind == 'step-text' else [_ctx_ref(fn, b['k']) for b in case['b']]
+                res = _doc_eval(ver, expr, root)
+                if res[0] == 'ok' and not isinstance(res[1], list):
+                    res = ('ok', [res[1]])
+                verdict(expr, res, want, f'{fn}/{kind}', f'{expr} doc={case["b"]!r} backend={backend}')
+            else:
+                sel = {'pred-elem': '//b', 'pred-text': '//b/text()', 'pred-attr': '//b/@k'}[kind]
+                n = {'pred-elem': len(svals), 'pred-text': sum(len(t) for t in texts), 'pred-attr': len(svals)}[kind]
+                if fn == 'string':
+                    expr = f'count({sel}[string() = string(.)])'
+                else:
+                    expr = f'count({sel}[{fn}() = {fn}(string(.))])'
+                verdict(expr, _doc_eval(ver, expr, root), n, f'{fn}/{kind}', f'{expr} doc={case["b"]!r} backend={backend}', lx(expr, lroot))
+                if fn == 'normalize-space':
+                    # and against the reference, not only against the one-argument form
+                    vals = svals if kind == 'pred-elem' else [t for ts in texts for t in ts] if kind == 'pred-text' else [b['k'] for b in case['b']]
+                    w = R.normalize_space(vals[0])
+                    q = _quote(w, '1.0', 0)
+                    if q is not None:
+                        expr2 = f'count({sel}[normalize-space() = {q}])'
+                        want2 = sum(1 for z in vals if R.normalize_space(z) == w)
+                        r2 = _doc_eval(ver, expr2, root)
+                        verdict('count(...[normalize-space() = literal])', r2, want2, f'{fn}/{kind}',
+                                f'{expr2} doc={case["b"]!r} backend={backend}')
+        else:
+            expr = case['expr']
+            classes.append('doc:ns:' + expr.split('(')[0])
+            for spec in case['p']:
+                for z in spec['a'] + list(spec['attrs'].values()):
+                    flags |= _str_flags(z)
+            if expr.startswith('count(//p'):
+                want = sum(1 for spec in case['p'] if R.contains(spec['a'][0], spec['attrs']['key']))
+                verdict(expr, _doc_eval(ver, expr, root, focus[0]), want, 'predicate', f'{expr} doc={case["p"]!r} backend={backend}',
+                        lx(expr, lfocus[0]))
+            else:
+                for k, (node, spec) in enumerate(zip(focus, case['p'])):
+                    a1, at = spec['a'][0], spec['attrs']
+                    want = {
+                        "concat(a, '-', @id)": lambda: a1 + '-' + at['id'],
+                        'contains(a, @key)': lambda: R.contains(a1, at['key']),
+                        'substring-before(a, @sep)': lambda: R.substring_before(a1, at['sep']),
+                        'substring-after(a, @sep)': lambda: R.substring_after(a1, at['sep']),
+                        'translate(a, @from, @to)': lambda: R.translate(a1, at['from'], at['to']),
+                        'starts-with(a, name())': lambda: R.starts_with(a1, 'p'),
+                        'concat(substring-before(a, @sep), @sep, substring-after(a, @sep))':
+                            lambda: R.substring_before(a1, at['sep']) + at['sep'] + R.substring_after(a1, at['sep']),
+                        'concat(@id, a, @key)': lambda: at['id'] + a1 + at['key'],
+                        'string-length(concat(a, @sep))': lambda: len(a1) + len(at['sep']),
+                    }[expr]()
+                    if expr.startswith('concat(substring-before') and R.contains(a1, at['sep']):
+                        assert want == a1
+                        classes.append('doc:ns:partition-hit')
+                    verdict(expr, _doc_eval(ver, expr, root, node), want, expr.split('(')[0] + ('-partition' if 'substring-after(a, @sep))' in expr else ''),
+                            f'{expr} focus=p[{k + 1}] a={spec["a"]!r} attrs={at!r} backend={backend}', lx(expr, lfocus[k]))
+    except AssertionError:
+        raise
+    except Exception as e:
+        discs.append(Disc(escape_bucket('C09', e) + f'/doc/{fam}/{vg}', 'value', repr(e), repr(case)[:300]))
+    if flags & {'nonxml-ws'}:
+        classes.append('doc:nonxml-ws')
+    if flags & {'astral', 'combining'}:
+        classes.append('doc:astral-or-combining')
+    if rec is not None:
+        rec.case(['doc', case], nontrivial=nontrivial, sample={'check': 'doc', 'case': case}, classes=classes)
+    return discs
+
+
+def judge_doc(case, rec=None):
+    out = []
+    for c in _cases_of('doc', case):
+        ds = judge_doc_case(c, rec)
+        if rec is not None:
+            rec.discs_of('doc', c, ds)
+        out += ds
+    return out
+
+
+# --------------------------------------------------------------------------
 # module interface
 # --------------------------------------------------------------------------
-_STRATS = {'ref': pool_strategy, 'lxml': pool_strategy, 'laws': pool_strategy, 'reuse': pool_strategy, 'coll': pool_strategy}
-_JUDGES = {'ref': judge_ref, 'lxml': judge_lxml, 'laws': judge_laws, 'reuse': judge_reuse, 'coll': judge_coll}
+_STRATS = {'ref': pool_strategy, 'lxml': pool_strategy, 'laws': pool_strategy, 'reuse': pool_strategy, 'coll': pool_strategy, 'doc': pool_strategy}
+_JUDGES = {'ref': judge_ref, 'lxml': judge_lxml, 'laws': judge_laws, 'reuse': judge_reuse, 'coll': judge_coll, 'doc': judge_doc}
 
 
 def selftest():
@@ -1456,8 +1708,8 @@ def selftest():
 
 def jobs(tier, seed):
     q = tier == 'quick'
-    plan = {'ref': (6, 1500 if q else 12000), 'lxml': (3, 1500 if q else 12000), 'laws': (2, 1000 if q else 8000),
-            'reuse': (3, 900 if q else 7000), 'coll': (2, 1200 if q else 9000)}
+    plan = {'ref': (6, 1500 if q else 12000), 'lxml': (3, 1500 if q else 12000), 'laws': (1, 1600 if q else 12000),
+            'reuse': (2, 1100 if q else 9000), 'coll': (2, 1200 if q else 9000), 'doc': (2, 1300 if q else 10000)}
     out = []
     for chk, (shards, n) in plan.items():
         for i in range(shards):
